@@ -255,6 +255,20 @@ def execute(case, se, out, trace):
             if not ok:
                 raise V("refinement", [la, fb, form, ob.kinds(ref)[-3:]], "after %s of %r to %r: %s ; incremental=%r one-shot=%r" % (form, piece, " ".join(pieces[: k + 1]), msg, _d(p), _d(ref)))
             out.count("probe:compared")
+            # a length cached by an observer before this append must not survive it
+            if any(nz == "length" for nzl in case["noise"][: k + 1] for nz in nzl):
+                try:
+                    lr = ref.length(error=1e-3, min_depth=3)
+                except Exception:
+                    lr = None
+                if lr is not None:
+                    try:
+                        lp = p.length(error=1e-3, min_depth=3)
+                    except Exception as e:
+                        raise V("refinement-length", [la, fb, form, type(e).__name__], "length() raised %r after %s of %r although the one-shot path measures %r" % (e, form, piece, lr))
+                    if not ob.close_num(lp, lr, 1e-9, 0.0):
+                        raise V("refinement-length", [la, fb, form], "length() is %r after %s of %r (an observer measured the path before the append); the one-shot path measures %r" % (lp, form, piece, lr))
+                    out.count("probe:length-after-append-compared")
         return
     if mode == "pathpath":
         try:
